@@ -25,7 +25,10 @@ MANIFEST = {
              "UUID, type at equal or lower version, echoing the request) or nothing; each answer once, inside the MX "
              "window, to the requester; the advertised and revoked (NT, USN) pairs are that same table, round-robin; "
              "every USN begins with the described device's UDN; every message is accepted by the model of the library's "
-             "listener as that device at the description URL (main theorem c13_ok: the judge holds on every model run). "
+             "listener as that device at the description URL (main theorem c13_ok: the judge holds on every model run); "
+             "history_once: the responder as an event-loop state machine with pending call_at timers sends, over ANY "
+             "sequence of receptions and clock advances, exactly what the per-request function prescribes - nothing lost, "
+             "duplicated or misdirected; wire_round_trip: the driver's reader of datagrams inverts build_ssdp_packet. "
              "The model is tied to server.py by generated constants/control shape (Gen/C13Server) and by a byte-for-byte "
              "differential check of every datagram, its virtual send time, destination, the randrange arguments and what "
              "a real SsdpListener reports; the same judge runs on the implementation's observations."),
